@@ -191,6 +191,20 @@ Proof.
   - intros t _ E. destruct (vt_index t); [cbn in E; discriminate E|reflexivity].
   - intros [r p] _ E. destruct r as [|[k v] r]; [|cbn in E; discriminate E].
     destruct p; [cbn in E; discriminate E|reflexivity].
+  - intros t1 t2 _ _ E. injection E as E. apply (menc_inj (W := IdWorld) BAcct) in E; [exact E|]. intros x y [= ->]; reflexivity.
+  - intros [i1 x1 s1 q1] [i2 x2 s2 q2] [_ N1] [_ N2] E. cbn in *. injection E as Ei Ex Es Eq.
+    change (@menc IdWorld validator (fun v => BVal (set_deleted false v)) i1 =
+            @menc IdWorld validator (fun v => BVal (set_deleted false v)) i2) in Ei.
+    apply (menc_inj_in (W := IdWorld)) in Ei.
+    + subst. f_equal.
+      * destruct x1, x2; cbn in Ex; try discriminate; [injection Ex as ->|]; reflexivity.
+      * destruct s1, s2; cbn in Es; try discriminate; [injection Es as ->|]; reflexivity.
+      * destruct q1, q2; cbn in Eq; try discriminate; [injection Eq as ->|]; reflexivity.
+    + intros k x y Hx Hy Hxy. pose proof (N1 k x Hx) as D1. pose proof (N2 k y Hy) as D2.
+      destruct x, y; cbn in *. subst. injection Hxy as -> -> -> -> -> -> ->. reflexivity.
+  - intros [r1 p1] [r2 p2] _ _ E. cbn in *. injection E as Er Ep.
+    apply (menc_inj (W := IdWorld) BRec) in Er; [|intros x y [= ->]; reflexivity]. subst. f_equal.
+    destruct p1, p2; cbn in Ep; try discriminate; [injection Ep as ->|]; reflexivity.
 Qed.
 
 (* ---- witnesses of the findings (computed in the structure-preserving instance) ------------------------- *)
